@@ -12,7 +12,7 @@ from . import ops
 import builtins
 
 
-@model(np.array)
+@model(np.array, np.asarray)
 def m_np_array(it, obj, *a, **k):
     from .tensor import STensor
     if isinstance(obj, STensor):
